@@ -462,6 +462,36 @@ pub fn gen_case(seed: u64, shard: u64, run: u64, t: &Tier) -> Option<Case> {
         from[j] = initial[j] - d;
         to[j] = initial[j] + if w.chance(0.8) { d } else { w.range_f64(0.01, 1.5) };
     }
+    // the initial vector itself may violate ONE limit (a robot jogged past a soft limit): the
+    // candidates that bring that joint back inside are legal, all others are not
+    let mut initial = initial;
+    if let Some((lf, lt)) = &cell.limits {
+        let mut ob = Rng::derive(seed, shard, run, "c14.initial-outside");
+        if ob.chance(0.12) {
+            for _ in 0..8 {
+                let k = ob.below(6);
+                if !(lf[k] < lt[k]) || lt[k] - lf[k] > 5.0 {
+                    continue;
+                }
+                let beyond = ob.range_f64(0.02, 0.3);
+                let mut q = initial;
+                q[k] = if ob.chance(0.5) { lt[k] + beyond } else { lf[k] - beyond };
+                if oracle::on_arc(q[k], lf[k], lt[k], 1e-6) != Tri::No {
+                    continue;
+                }
+                let b = oracle::brute_q(&oc, &q, &cell.safety);
+                if b.any_definite() || b.any_dont_care() {
+                    continue;
+                }
+                initial = q;
+                // targets for that joint: inside the limits (both, one, or none of them)
+                let w_ = lt[k] - lf[k];
+                from[k] = if ob.chance(0.8) { lf[k] + w_ * ob.range_f64(0.05, 0.45) } else { lf[k] - 0.1 };
+                to[k] = if ob.chance(0.8) { lf[k] + w_ * ob.range_f64(0.55, 0.95) } else { lt[k] + 0.1 };
+                break;
+            }
+        }
+    }
     // coincidences and far-away spellings of the target values
     for j in 0..6 {
         match w.below(30) {
